@@ -2242,6 +2242,11 @@ func (n *RegexNode) TryGetOrdinalCaseInsensitiveString(childIndex int, exclusive
 			if child.T == NtSet {
 				count = 1
 			}
+			if count > maxOrdinalCaseInsensitiveRun {
+				// (an arbitrary cut-off, as in the prefix analyses: [Aa]{2147483647} would
+				// otherwise be expanded into a string of that length)
+				break
+			}
 			vsb.WriteString(strings.Repeat(string(twoChars[0]|0x20), count))
 		} else if child.T == NtEmpty {
 			// Skip over empty nodes, as they're pure nops. They would ideally have been optimized away,
@@ -2272,6 +2277,9 @@ func (n *RegexNode) TryGetOrdinalCaseInsensitiveString(childIndex int, exclusive
 	// No sequence found.
 	return false, 0, ""
 }
+
+// the longest fixed-count set loop TryGetOrdinalCaseInsensitiveString expands into a string
+const maxOrdinalCaseInsensitiveRun = 1024
 
 func (child *RegexNode) canJoinLengthCheck() bool {
 	if child.T == NtOne || child.T == NtNotone || child.T == NtSet || child.T == NtMulti {
